@@ -30,10 +30,11 @@ Record cfg := mkCfg {
   fix_scale_tuning : bool;  (* Scale.__init__ keeps a Tuning instance (octave ratio, spo)    *)
   fix_scale_key : bool;     (* EventDict.__call__ does not turn a Scale into an arrayed_param *)
   fix_pdelta_input : bool;  (* Pdelta embeds its pattern with the event received after the rest, not the first one *)
-  fix_pchain_return : bool  (* Pchain returns the event it was sent, not a half-transformed copy, when a stream ends *)
+  fix_pchain_return : bool; (* Pchain returns the event it was sent, not a half-transformed copy, when a stream ends *)
+  fix_ppar_rest : bool      (* Ppar's filling rest lasts nexttime - now, not that times the input event's stretch again *)
 }.
-Definition patched := mkCfg true true true true true true true.
-Definition unpatched := mkCfg false false false false false false false.
+Definition patched := mkCfg true true true true true true true true.
+Definition unpatched := mkCfg false false false false false false false false.
 
 Record kern := mkK { k_midicps : Q -> Q; k_cpsmidi : Q -> Q; k_dbamp : Q -> Q; k_ampdb : Q -> Q }.
 
@@ -645,7 +646,10 @@ Fixpoint snext (depth : nat) (s : st) (inev : event) (mc : nat) : res * nat :=
                     | RItem p _ =>
                         (* that child stream ended, so rest until next one *)
                         let nexttime := F p in
-                        (RYield (silent (VNum (nsub nexttime now)) inev)
+                        (* released code: Event.silent multiplies nexttime - now by inevent's stretch, although the
+                           queue times already are in stretched time *)
+                        let r := silent (VNum (nsub nexttime now)) inev in
+                        (RYield (if fix_ppar_rest c then put "delta" (VNum (nsub nexttime now)) r else r)
                                 (SPar true q1 nexttime (set_nth i SDone cs)) o, mc')
                     | _ => (RStop o inev, mc')                   (* queue.clear(); return inevent *)
                     end
